@@ -94,8 +94,85 @@ fn chain(t: &[&str]) -> String {
     format!("{} | {}", out.join(","), listed.join(","))
 }
 
+fn short(d: &[u8]) -> String {
+    // content fingerprint: length + first bytes (contents are generated to be name-specific)
+    format!("{}.{}", d.len(), hex(&d[..d.len().min(12)]))
+}
+
+/// par <mode> <archive> <threads> <batch> <skip> <stress> <names hex ,|->
+/// modes: cfg (extract_with_config) | files (extract_files_parallel) | batched (extract_files_batched)
+///        | process (process_files_parallel) | seq (sequential read_file, the reference)
+fn par(t: &[&str]) -> String {
+    use wow_mpq::single_archive_parallel::{ParallelArchive, ParallelConfig, extract_with_config};
+    let names: Vec<String> = if t[6] == "-" { vec![] } else { t[6].split(',').map(|n| String::from_utf8(unhex(n)).unwrap()).collect() };
+    let refs: Vec<&str> = names.iter().map(|s| s.as_str()).collect();
+    let threads = num(t[2]) as usize;
+    let batch = num(t[3]) as usize;
+    let skip = t[4] == "1";
+    // CPU contention: busy threads for the duration of the call
+    let stop = std::sync::Arc::new(std::sync::atomic::AtomicBool::new(false));
+    let mut busy = Vec::new();
+    for _ in 0..num(t[5]) {
+        let s = stop.clone();
+        busy.push(std::thread::spawn(move || { let mut x = 0u64; while !s.load(std::sync::atomic::Ordering::Relaxed) { x = x.wrapping_mul(6364136223846793005).wrapping_add(1); std::hint::black_box(x); } }));
+    }
+    let fmt_slot = |n: &str, r: &Result<Vec<u8>, wow_mpq::Error>| match r { Ok(d) => format!("{}>{}", hex(n.as_bytes()), short(d)), Err(_) => format!("{}>ERR", hex(n.as_bytes())) };
+    let out = match t[0] {
+        "seq" => {
+            match Archive::open(t[1]) {
+                Err(e) => format!("OPEN-{}", errclass(&e)),
+                Ok(mut a) => refs.iter().map(|n| fmt_slot(n, &a.read_file(n))).collect::<Vec<_>>().join(","),
+            }
+        }
+        "cfg" => {
+            let mut c = ParallelConfig::new().batch_size(batch).skip_errors(skip);
+            if threads > 0 { c = c.threads(threads); }
+            match extract_with_config(t[1], &refs, c) {
+                Err(_) => "WHOLE-ERR".to_string(),
+                Ok(v) => v.iter().map(|(n, r)| fmt_slot(n, r)).collect::<Vec<_>>().join(","),
+            }
+        }
+        m => {
+            let pool = rayon::ThreadPoolBuilder::new().num_threads(threads.max(1)).build().unwrap();
+            pool.install(|| match ParallelArchive::open(t[1]) {
+                Err(e) => format!("OPEN-{}", errclass(&e)),
+                Ok(a) => {
+                    let r = match m {
+                        "files" => a.extract_files_parallel(&refs),
+                        "batched" => a.extract_files_batched(&refs, batch),
+                        _ => a.process_files_parallel(&refs, |n, d| Ok((n.to_string(), d))),
+                    };
+                    match r {
+                        Err(_) => "WHOLE-ERR".to_string(),
+                        Ok(v) => v.iter().map(|(n, d)| format!("{}>{}", hex(n.as_bytes()), short(d))).collect::<Vec<_>>().join(","),
+                    }
+                }
+            })
+        }
+    };
+    stop.store(true, std::sync::atomic::Ordering::Relaxed);
+    for b in busy { let _ = b.join(); }
+    if out.is_empty() { "-".to_string() } else { out }
+}
+
+/// multi <name hex> <archive paths ,>  : parallel::extract_from_multiple_archives vs sequential
+fn multi(t: &[&str]) -> String {
+    let name = String::from_utf8(unhex(t[0])).unwrap();
+    let paths: Vec<&str> = t[1].split(',').collect();
+    let par = wow_mpq::parallel::extract_from_multiple_archives(&paths, &name);
+    let seq: Result<Vec<(PathBuf, Vec<u8>)>, wow_mpq::Error> = paths.iter().map(|p| Archive::open(p).and_then(|mut a| a.read_file(&name)).map(|d| (PathBuf::from(p), d))).collect();
+    match (par, seq) {
+        (Ok(a), Ok(b)) => if a == b { "SAME".to_string() } else { "DIFF".to_string() },
+        (Err(_), Err(_)) => "SAME-ERR".to_string(),
+        (Ok(_), Err(_)) => "DIFF par-ok seq-err".to_string(),
+        (Err(_), Ok(_)) => "DIFF par-err seq-ok".to_string(),
+    }
+}
+
 fn main() {
     serve(|t| match t[0] {
+        "par" => par(&t[1..]),
+        "multi" => multi(&t[1..]),
         "chain" => chain(&t[1..]),
         "patchapply" => {
             use wow_mpq::patch::{PatchFile, apply_patch};
